@@ -147,6 +147,8 @@ def run(ctx):
                     if eq != (c1 == 'Eq') or {'Lt': 'Gt', 'Gt': 'Lt', 'Eq': 'Eq'}[c1] != c2 or (eq and not hs) or eq != raw:
                         ctx.failure('VerbatimUrl ==/cmp/hash incoherent or not on the parsed URL only: == %s cmp %s/%s hash-equal %s parsed URLs equal %s' % (eq, c1, c2, hs, raw),
                                     {'a': ta, 'built_a': ha, 'b': tb, 'built_b': hb})
+                    if len(r) > 6 and r[6] != 'T':
+                        ctx.failure('VerbatimUrl: partial_cmp / < is not the order cmp gives, or to_url / into_url is not the parsed URL', {'a': ta, 'built_a': ha, 'b': tb, 'built_b': hb})
     # ... and with origins attached: every field that == looks at must also separate under cmp and hash
     ORIGINS = ['none', ['file', S('requirements.txt')], ['file', S('other.txt')], ['project', S('/p'), S('proj')], ['project', S('/p'), S('other')], ['workspace']]
     for a in REQS[:6]:
@@ -158,6 +160,8 @@ def run(ctx):
                     if r[0] != 'ok':
                         continue
                     eq, c1, c2, hs = r[1] == 'T', r[2], r[3], r[4] == 'T'
+                    if len(r) > 6 and r[6] != 'T':
+                        ctx.failure('Requirement: partial_cmp / < is not the order cmp gives', {'a': a, 'b': b, 'origin_a': dump(oa), 'origin_b': dump(ob)})
                     if eq != (c1 == 'Eq') or {'Lt': 'Gt', 'Gt': 'Lt', 'Eq': 'Eq'}[c1] != c2 or (eq and not hs):
                         ctx.failure('Requirement ==/cmp/hash incoherent: == %s cmp %s/%s hash-equal %s' % (eq, c1, c2, hs), {'a': a, 'b': b, 'origin_a': dump(oa), 'origin_b': dump(ob)})
     c02.monitor(ctx, sess, regs)
